@@ -10,5 +10,5 @@ trap 'git -C /repo worktree remove --force $WT >/dev/null 2>&1; rm -rf /tmp/seed
 git -C $WT apply /verif/seeded/$ID/patch.diff || { echo "SEEDED $ID: patch does not apply"; exit 2; }
 LOG=/tmp/seeded_$ID.$P.log
 VERIF_REPO=$WT VERIF_EVIDENCE_DIR=/tmp/seeded_evidence VERIF_REPLAYS_DIR=/tmp/seeded_replays ./bin/verif check $P --tier quick "$@" > $LOG 2>&1; RC=$?
-V=$(grep -c "^VIOLATION" $LOG)
-echo "SEEDED $ID on $P: exit=$RC violations=$V $(grep -A1 '^VIOLATION' $LOG | grep -v '^VIOLATION' | grep -v '^--' | cut -c1-150 | sort | uniq -c | sort -rn | head -4 | tr '\n' ';')"
+V=$(grep -a -c "^VIOLATION" $LOG)
+echo "SEEDED $ID on $P: exit=$RC violations=$V $(grep -a -A1 '^VIOLATION' $LOG | grep -v '^VIOLATION' | grep -v '^--' | cut -c1-150 | sort | uniq -c | sort -rn | head -4 | tr '\n' ';')"
